@@ -44,6 +44,8 @@ type apiCase struct {
 	// already given must not change afterwards, and writing into it must not reach the simulator
 	retained     [][]gmars.Address
 	retainedCopy [][]gmars.Address
+	runResults   [][]bool // slices returned by Run() and what they held
+	runCopies    [][]bool
 }
 
 func cellStr(i gmars.Instruction) string {
@@ -376,6 +378,20 @@ func (c *apiCase) run() {
 	}
 	var res []bool
 	f := guarded(c.deadline, func() { res = c.sim.Run() })
+	// an answer given earlier stays what it was
+	for i, old := range c.runResults {
+		for j := range old {
+			if old[j] != c.runCopies[i][j] {
+				c.finish("U", "", "earlier-Run-result-changed-afterwards", false)
+				c.dead = true
+				return
+			}
+		}
+	}
+	if res != nil && len(c.runResults) < 8 {
+		c.runResults = append(c.runResults, res)
+		c.runCopies = append(c.runCopies, append([]bool(nil), res...))
+	}
 	resp := "nil"
 	if res != nil {
 		parts := make([]string, len(res))
